@@ -424,17 +424,40 @@ pub open spec fn queue_of(st: St) -> Seq<Unbonding> { match get_queue(st) { Ok(S
 pub open spec fn slash_frame(sm: St, s1: St, v: Seq<char>, stakers: Set<Addr>) -> bool {
     forall|k: Seq<u8>| k != k_vinfo(v) && k != k_queue() && !is_stake_key(k, stakers, v) ==> #[trigger] same_at(s1, sm, k)
 }
+// the atomics of d's stake with v (0 when there is no record)
+pub open spec fn share_atomics(st: St, d: Addr, v: Seq<char>) -> nat {
+    match get_shares(st, d, v) { Ok(Some(x)) => x.stake.atomics as nat, _ => 0 }
+}
+// what the delegators sq[0..n] hold with v in store st, in atomics
+pub open spec fn shares_sum(st: St, sq: Seq<Addr>, n: int, v: Seq<char>) -> nat
+    decreases n
+{
+    if n <= 0 { 0 } else { shares_sum(st, sq, n - 1, v) + share_atomics(st, sq[n - 1], v) }
+}
+// ... and what they hold after each stake is scaled by rem
+pub open spec fn scaled_sum(sm: St, sq: Seq<Addr>, n: int, v: Seq<char>, rem: nat) -> nat
+    decreases n
+{
+    if n <= 0 { 0 } else { scaled_sum(sm, sq, n - 1, v, rem) + dmul(share_atomics(sm, sq[n - 1], v), rem) }
+}
+// the validator's recorded total is the whole-token part of what its delegators hold together (in some enumeration of
+// the staker set; the sum does not depend on it)
+pub open spec fn total_is_whole_part(s1: St, v: Seq<char>, i1: ValidatorInfo) -> bool {
+    exists|sq: Seq<Addr>| sq.no_duplicates() && sq.to_set() == i1.stakers@
+        && (fits(shares_sum(s1, sq, sq.len() as int, v)) ==> i1.stake.u == #[trigger] shares_sum(s1, sq, sq.len() as int, v) / dec_one())
+}
+// C16, from the statement: a slash by p (rem = 1 - p) scales EVERY delegation to v and every pending unbonding from v by
+// rem; only p = 1 removes the delegations.  (Whether all delegations together still make a whole token plays no role.)
 pub open spec fn slashed(sm: St, s1: St, v: Seq<char>, rem: nat) -> bool {
     &&& get_vinfo(sm, v) matches Ok(Some(im))
     &&& get_vinfo(s1, v) matches Ok(Some(i1))
     &&& get_queue(sm) is Ok
     &&& get_queue(s1) matches Ok(Some(q1))
     &&& i1.last_rewards_calculation == im.last_rewards_calculation
-    &&& i1.stake.u == dmul(im.stake.u as nat, rem)
-    &&& if i1.stake.u == 0 {
-            i1.stakers@ == Set::<Addr>::empty() && forall|d: Addr| im.stakers@.contains(d) ==> !s1.contains_key(#[trigger] k_stake(d, v))
+    &&& if rem == 0 {
+            i1.stake.u == 0 && i1.stakers@ == Set::<Addr>::empty() && forall|d: Addr| im.stakers@.contains(d) ==> !s1.contains_key(#[trigger] k_stake(d, v))
         } else {
-            i1.stakers@ == im.stakers@ && forall|d: Addr| im.stakers@.contains(d) ==> #[trigger] scaled(sm, s1, d, v, rem)
+            i1.stakers@ == im.stakers@ && (forall|d: Addr| im.stakers@.contains(d) ==> #[trigger] scaled(sm, s1, d, v, rem)) && total_is_whole_part(s1, v, i1)
         }
     &&& q1@.len() == queue_of(sm).len()
     &&& forall|i: int| 0 <= i < q1@.len() ==> #[trigger] q1@[i] == slash_entry(queue_of(sm)[i], v, rem)
@@ -504,14 +527,27 @@ pub proof fn lemma_slash_step_scale(sm: St, st: St, st2: St, seq: Seq<Addr>, idx
         if k == k_stake(d, v) { assert(is_stake_key(k, im.stakers@, v)); }
     }
 }
+// when every stake of seq[0..n] in s1 is the scaled stake of sm, the two sums agree
+pub proof fn lemma_scaled_sum(sm: St, s1: St, seq: Seq<Addr>, n: int, v: Seq<char>, rem: nat)
+    requires 0 <= n <= seq.len(), forall|j: int| 0 <= j < n ==> scaled(sm, s1, #[trigger] seq[j], v, rem)
+    ensures shares_sum(s1, seq, n, v) == scaled_sum(sm, seq, n, v, rem)
+    decreases n
+{
+    if n > 0 {
+        lemma_scaled_sum(sm, s1, seq, n - 1, v, rem);
+        assert(scaled(sm, s1, seq[n - 1], v, rem));
+    }
+}
 // after the loop and the two saves (queue, validator info): the slash relation and the store invariant
 pub proof fn lemma_slash_done(sm: St, st: St, s1: St, seq: Seq<Addr>, v: Seq<char>, rem: nat, wipe: bool, q1: VecDeque<Unbonding>, i1: ValidatorInfo)
     requires
         swf(sm), rem <= dec_one(),
         slash_inv(sm, st, seq, seq.len() as int, v, rem, wipe),
         get_queue(sm) is Ok,
-        get_vinfo(sm, v) matches Ok(Some(im)) && i1.last_rewards_calculation == im.last_rewards_calculation && i1.stake.u == dmul(im.stake.u as nat, rem)
-            && wipe == (i1.stake.u == 0) && i1.stakers@ == (if wipe { Set::<Addr>::empty() } else { im.stakers@ }),
+        get_vinfo(sm, v) matches Ok(Some(im)) && i1.last_rewards_calculation == im.last_rewards_calculation
+            && wipe == (rem == 0) && i1.stakers@ == (if wipe { Set::<Addr>::empty() } else { im.stakers@ }),
+        wipe ==> i1.stake.u == 0,
+        !wipe ==> (fits(scaled_sum(sm, seq, seq.len() as int, v, rem)) ==> i1.stake.u == scaled_sum(sm, seq, seq.len() as int, v, rem) / dec_one()),
         q1@.len() == queue_of(sm).len(),
         forall|i: int| 0 <= i < q1@.len() ==> #[trigger] q1@[i] == slash_entry(queue_of(sm)[i], v, rem),
         // the two final writes, in either order
@@ -535,6 +571,10 @@ pub proof fn lemma_slash_done(sm: St, st: St, s1: St, seq: Seq<Addr>, v: Seq<cha
         assert(same_at(st, sm, k));
     }
     assert(slash_frame(sm, s1, v, im.stakers@));
+    if !wipe {
+        lemma_scaled_sum(sm, s1, seq, seq.len() as int, v, rem);
+        assert(total_is_whole_part(s1, v, i1));
+    }
     assert(slashed(sm, s1, v, rem));
     assert forall|v2: Seq<char>, d2: Addr| #[trigger] has_staker(s1, v2, d2) implies has_shares(s1, d2, v2) by {
         if v2 == v {
@@ -604,23 +644,23 @@ pub proof fn lemma_slashed_props(sm: St, s1: St, v: Seq<char>, rem: nat, d: Addr
     requires slashed(sm, s1, v, rem), rem <= dec_one()
     ensures
         // nothing grows
-        /*VXCLAUSE C16.lemma.total_not_increased*/ ((get_vinfo(s1, v)->Ok_0->0).stake.u <= (get_vinfo(sm, v)->Ok_0->0).stake.u),
         /*VXCLAUSE C16.lemma.stake_not_increased*/ ((get_shares(sm, d, v) matches Ok(Some(x0)) && get_shares(s1, d, v) matches Ok(Some(x1)) && (get_vinfo(sm, v)->Ok_0->0).stakers@.contains(d)) ==> (get_shares(s1, d, v)->Ok_0->0).stake.atomics <= (get_shares(sm, d, v)->Ok_0->0).stake.atomics),
         /*VXCLAUSE C16.lemma.queue_not_increased*/ (forall|i: int| 0 <= i < queue_of(s1).len() ==> (#[trigger] queue_of(s1)[i]).amount.u <= queue_of(sm)[i].amount.u),
         // other validators' delegations, non-stakers, validator records and parameters are untouched
         /*VXCLAUSE C16.lemma.others_unchanged*/ ((v2 != v ==> get_vinfo(s1, v2) == get_vinfo(sm, v2) && get_shares(s1, d, v2) == get_shares(sm, d, v2)) && get_vobj(s1, v2) == get_vobj(sm, v2) && get_sinfo(s1) == get_sinfo(sm)),
         /*VXCLAUSE C16.lemma.other_queue_entries*/ (forall|i: int| 0 <= i < queue_of(s1).len() && queue_of(sm)[i].validator@ != v ==> #[trigger] queue_of(s1)[i] == queue_of(sm)[i]),
+        // a partial slash scales every delegation, however little is left in total
+        /*VXCLAUSE C16.lemma.partial_slash_scales*/ ((rem != 0 && (get_vinfo(sm, v)->Ok_0->0).stakers@.contains(d)) ==> scaled(sm, s1, d, v, rem)),
         // a full slash leaves no delegation to v
         /*VXCLAUSE C16.lemma.full_slash_removes*/ ((rem == 0 && (get_vinfo(sm, v)->Ok_0->0).stakers@.contains(d)) ==> !s1.contains_key(k_stake(d, v))),
 {
     let im = get_vinfo(sm, v)->Ok_0->0;
-    lemma_dmul_le(im.stake.u as nat, rem);
     lemma_slash_frame_other(sm, s1, v, im.stakers@, v2, d);
-    if im.stakers@.contains(d) && (get_vinfo(s1, v)->Ok_0->0).stake.u != 0 {
+    if im.stakers@.contains(d) && rem != 0 {
         assert(scaled(sm, s1, d, v, rem));
         lemma_dmul_le((get_shares(sm, d, v)->Ok_0->0).stake.atomics as nat, rem);
     }
-    if im.stakers@.contains(d) && (get_vinfo(s1, v)->Ok_0->0).stake.u == 0 {
+    if im.stakers@.contains(d) && rem == 0 {
         assert(!s1.contains_key(k_stake(d, v)));
     }
     let q1 = (get_queue(s1)->Ok_0->0)@;
@@ -630,9 +670,6 @@ pub proof fn lemma_slashed_props(sm: St, s1: St, v: Seq<char>, rem: nat, d: Addr
     }
     assert forall|i: int| 0 <= i < queue_of(s1).len() && queue_of(sm)[i].validator@ != v implies #[trigger] queue_of(s1)[i] == queue_of(sm)[i] by {
         assert(q1[i] == slash_entry(queue_of(sm)[i], v, rem));
-    }
-    if rem == 0 {
-        assert(dmul(im.stake.u as nat, 0) == 0) by (nonlinear_arith);
     }
 }
 
